@@ -1068,3 +1068,82 @@ def rule_energy_stop(ctx, rid, gni):
         else:
             ctx.violation(rid, ed, c, 'energy metric differs from 20log10(sum imf^2) - 20log10(sum residue^2)',
                           expected=str(want)[:200], found='; '.join(str(alg.poly(v))[:200] for v in vals))
+
+
+# ----------------------------------------------------------------------------------------------
+# no clobbering: a stored component never shares its buffer with a residual that is updated in place
+
+VIEW_CALLS = {'numpy.asarray', 'numpy.asanyarray', 'numpy.squeeze', 'numpy.reshape', 'numpy.ravel', 'numpy.atleast_1d',
+              'numpy.atleast_2d', 'numpy.transpose', 'numpy.ascontiguousarray', 'emd.support.ensure_1d_with_singleton',
+              'emd.support.ensure_vector', 'emd.support.ensure_2d'}
+VIEW_METHS = {'reshape', 'ravel', 'squeeze', 'view', 'transpose'}
+
+
+def may_alias(t, atom):
+    """t is (possibly) the same buffer as the array `atom`: reached through views only (no copy, no arithmetic)."""
+    if t == atom:
+        return True
+    if t[0] == 'sub':
+        return may_alias(t[1], atom)          # basic or advanced indexing: conservatively a view
+    if t[0] == 'attr' and t[2] in ('T', 'real'):
+        return may_alias(t[1], atom)
+    if t[0] == 'meth' and t[1] in VIEW_METHS:
+        return may_alias(t[2], atom)
+    if t[0] == 'call' and t[1] in VIEW_CALLS:
+        args = list(t[2]) + [v for k, v in t[3] if k in ('to_check', 'a', 'x')]
+        for a in args:
+            if a[0] in ('list', 'tuple'):
+                if any(may_alias(x, atom) for x in a[1]):
+                    return True
+            elif may_alias(a, atom):
+                return True
+    return False
+
+
+def rule_no_clobber(ctx, rid, fi, extractor_q, contexts):
+    """The component handed back by the single-IMF extraction must not be a view of the signal it was given when the
+    caller updates that signal in place: otherwise the stored component is overwritten by the residual update
+    (two edits that each look harmless: dropping a defensive copy in the extraction, `residual -= component`)."""
+    P = ctx.P
+    ex = P.func(extractor_q)
+    x0 = S(ex.params[0])
+    alias_paths = []
+    for context in contexts:
+        for e in extraction_exits(ctx, ex, context):
+            if e.kind != 'return':
+                continue
+            sp = _split_result(e)
+            comp = sp[0] if sp else e.value
+            if may_alias(comp, x0):
+                alias_paths.append(e)
+    # in-place updates in the caller of a variable that is also handed to the extraction as its signal
+    sig_names = set()
+    for c in P.calls_in(fi):
+        ca = P.resolve_callee(fi.module, fi, c.func)
+        if ca.kind == 'repo' and ca.dotted == extractor_q:
+            b = P.bind(c.args, c.keywords, ca)
+            node = b.args.get(ex.params[0])
+            if isinstance(node, ast.Name):
+                sig_names.add(node.id)
+    inplace = []
+    for n in walk_local(fi.node):
+        if isinstance(n, ast.AugAssign) and isinstance(n.target, ast.Name) and n.target.id in sig_names:
+            inplace.append((n, '`%s`' % unparse(n)[:50]))
+        elif isinstance(n, ast.Subscript) and isinstance(n.ctx, ast.Store) and isinstance(n.value, ast.Name) \
+                and n.value.id in sig_names:
+            inplace.append((n, 'store into `%s`' % unparse(n)[:40]))
+        elif isinstance(n, ast.Call) and isinstance(n.func, ast.Attribute) and isinstance(n.func.value, ast.Name) \
+                and n.func.value.id in sig_names and n.func.attr in ('fill', 'sort', 'put', 'itemset', 'resize'):
+            inplace.append((n, '`%s`' % unparse(n)[:50]))
+        elif isinstance(n, ast.keyword) and n.arg == 'out' and isinstance(n.value, ast.Name) and n.value.id in sig_names:
+            inplace.append((n.value, '`out=%s`' % n.value.id))
+    c = 'an extracted component never shares its buffer with a residual that is updated in place'
+    if alias_paths and inplace:
+        e = alias_paths[0]
+        ctx.violation(rid, fi, c, '%s can return (a view of) the very array it was given (%s), and %s updates that array '
+                      'in place (%s): the component stored for this layer is overwritten by the residual'
+                      % (ex.name, show(_split_result(e)[0] if _split_result(e) else e.value)[:50], fi.name,
+                         inplace[0][1]), node=inplace[0][0], path=trace_tail(e.state, 6))
+    else:
+        ctx.passed(rid, fi, c, '%d extraction path(s) returning a view of the input, %d in-place update(s) of the '
+                   'extraction input in %s' % (len(alias_paths), len(inplace), fi.name))
